@@ -64,23 +64,103 @@ fn rows_gen<F: Fl>(a: &ArrayView2<F>) -> Vec<Vec<F>> {
     a.rows().into_iter().map(|r| r.to_vec()).collect()
 }
 
+/// memory layouts the same logical matrix is presented in (records, query batch, precomputed centroids)
+const LAYOUTS: [&str; 8] = ["row_major", "col_major", "rev_rows_view", "rev_rows_owned", "rev_cols_view", "rev_cols_owned", "strided_rows", "strided_cols"];
+/// layout of the current dataset (rotates with the dataset id)
+static LAYOUT: std::sync::atomic::AtomicU8 = std::sync::atomic::AtomicU8::new(0);
+/// owned arrays whose strides stayed negative after `.to_owned()` of a reversed view (sanity counter)
+static NEG_OWNED: std::sync::atomic::AtomicUsize = std::sync::atomic::AtomicUsize::new(0);
+
+/// backing storage + recipe for a view with the logical content of `a`
+struct Lay<F> { store: Array2<F>, kind: u8 }
+impl<F: Fl> Lay<F> {
+    fn new(a: &Array2<F>, kind: u8) -> Lay<F> {
+        let (n, p) = a.dim();
+        let junk = F::nan();
+        let store = match kind {
+            1 => {
+                // column-major owned: (p, n) standard array, transposed
+                let mut t = Array2::<F>::zeros((p, n));
+                t.assign(&a.t());
+                t.reversed_axes()
+            }
+            2 | 3 => {
+                let mut rev = Array2::<F>::zeros((n, p));
+                for i in 0..n { rev.row_mut(n - 1 - i).assign(&a.row(i)); }
+                if kind == 3 {
+                    let o = rev.slice(ndarray::s![..;-1, ..]).to_owned();
+                    if o.strides().iter().any(|&st| st < 0) { NEG_OWNED.fetch_add(1, std::sync::atomic::Ordering::Relaxed); }
+                    o
+                } else { rev }
+            }
+            4 | 5 => {
+                let mut rev = Array2::<F>::zeros((n, p));
+                for j in 0..p { rev.column_mut(p - 1 - j).assign(&a.column(j)); }
+                if kind == 5 {
+                    let o = rev.slice(ndarray::s![.., ..;-1]).to_owned();
+                    if o.strides().iter().any(|&st| st < 0) { NEG_OWNED.fetch_add(1, std::sync::atomic::Ordering::Relaxed); }
+                    o
+                } else { rev }
+            }
+            6 => {
+                let mut w = Array2::<F>::from_elem((2 * n, p), junk);
+                for i in 0..n { w.row_mut(2 * i).assign(&a.row(i)); }
+                w
+            }
+            7 => {
+                let mut w = Array2::<F>::from_elem((n, 2 * p), junk);
+                for j in 0..p { w.column_mut(2 * j).assign(&a.column(j)); }
+                w
+            }
+            _ => a.clone(),
+        };
+        Lay { store, kind }
+    }
+    /// kinds whose logical array IS the owned store
+    fn owned(&self) -> bool { matches!(self.kind, 0 | 1 | 3 | 5) }
+    fn view(&self) -> ArrayView2<'_, F> {
+        match self.kind {
+            2 => self.store.slice(ndarray::s![..;-1, ..]),
+            4 => self.store.slice(ndarray::s![.., ..;-1]),
+            6 => self.store.slice(ndarray::s![..;2, ..]),
+            7 => self.store.slice(ndarray::s![.., ..;2]),
+            _ => self.store.view(),
+        }
+    }
+}
+
+/// predict (matrix and single rows) and transform on a query batch in whatever representation
+fn query_model<F: Fl, D: Distance<F> + std::fmt::Debug + 'static, DQ: ndarray::Data<Elem = F>>(
+    model: &KMeans<F, D>, q: &ndarray::ArrayBase<DQ, ndarray::Ix2>,
+) -> (Vec<usize>, Vec<F>, Vec<usize>) {
+    let predict: ndarray::Array1<usize> = model.predict(q);
+    let transform = model.transform(q).to_vec();
+    // the single-observation form: PredictInplace<ArrayBase<_, Ix1>, usize>
+    let predict1: Vec<usize> = q.rows().into_iter().map(|row| { let p: usize = model.predict(&row); p }).collect();
+    (predict.to_vec(), transform, predict1)
+}
+
 fn fit_with<F: Fl, D: Distance<F> + std::fmt::Debug + 'static>(
     dist: D, x: &Array2<F>, q: &Array2<F>, k: usize, init: &Init<F>, seed: u64, max_iter: u64, tol: F, n_runs: usize,
 ) -> Result<FitOut<F>, String> {
+    let layout = LAYOUT.load(std::sync::atomic::Ordering::Relaxed);
     let rng = Xoshiro256Plus::seed_from_u64(seed);
     let im = match init {
-        Init::Pre(c) => KMeansInit::Precomputed(arr(c)),
+        // the precomputed centroids are an owned array: the owned layouts apply to them
+        Init::Pre(c) => KMeansInit::Precomputed(Lay::new(&arr(c), [0u8, 1, 3, 3, 5, 5, 1, 5][layout as usize]).store),
         Init::Random => KMeansInit::Random,
         Init::PlusPlus => KMeansInit::KMeansPlusPlus,
         Init::Para | Init::Para1 => KMeansInit::KMeansPara,
     };
     let params = KMeans::params_with(k, rng, dist).max_n_iterations(max_iter).tolerance(tol).n_runs(n_runs).init_method(im);
-    let ds = DatasetBase::from(x.clone());
-    let model = params.fit(&ds).map_err(|e| format!("{}", e))?;
-    let predict = model.predict(q).to_vec();
-    let transform = model.transform(q).to_vec();
-    // the single-observation form: PredictInplace<ArrayBase<_, Ix1>, usize>
-    let predict1: Vec<usize> = q.rows().into_iter().map(|row| { let p: usize = model.predict(&row); p }).collect();
+    let xl = Lay::new(x, layout);
+    let model = if xl.owned() {
+        params.fit(&DatasetBase::from(xl.store.clone())).map_err(|e| format!("{}", e))?
+    } else {
+        params.fit(&DatasetBase::from(xl.view())).map_err(|e| format!("{}", e))?
+    };
+    let ql = Lay::new(q, layout);
+    let (predict, transform, predict1) = if ql.owned() { query_model(&model, &ql.store) } else { query_model(&model, &ql.view()) };
     // the remaining call forms must agree bit for bit with the two above (judged here, not in Coq)
     let mut forms_differ = None;
     {
@@ -139,7 +219,7 @@ const MAX_HUNG: usize = 3;
 
 /// every fit runs on its own thread under a watchdog: the instances are tiny (n <= 60, max_n_iterations <= 8,
 /// n_runs <= 5), so a fit that does not return within FIT_TIMEOUT_S is not bounded by its iteration budget
-fn do_fit<F: Fl>(m: Met, x: &Array2<F>, q: &Array2<F>, k: usize, init: &Init<F>, seed: u64, max_iter: u64, tol: F, n_runs: usize) -> Result<FitOut<F>, String> {
+fn do_fit_raw<F: Fl>(m: Met, x: &Array2<F>, q: &Array2<F>, k: usize, init: &Init<F>, seed: u64, max_iter: u64, tol: F, n_runs: usize) -> Result<FitOut<F>, String> {
     let (x2, q2, init2) = (x.clone(), q.clone(), init.clone());
     let one_thread = matches!(init, Init::Para1) || (SINGLE_POOL.load(std::sync::atomic::Ordering::Relaxed) && !matches!(init, Init::Para));
     let job = move || match guarded(move || match m {
@@ -164,6 +244,47 @@ fn do_fit<F: Fl>(m: Met, x: &Array2<F>, q: &Array2<F>, k: usize, init: &Init<F>,
             Err(format!("TIMEOUT: fit with max_n_iterations={} n_runs={} did not return within {} s", max_iter, n_runs, FIT_TIMEOUT_S))
         }
     }
+}
+
+/// power-of-two scale exponent e of the current dataset when the exact covariance twin is to be run (0 = none):
+/// the data, the queries, the precomputed centroids and the tolerance of the dataset are 2^e times a base instance
+static COV_EXP: std::sync::atomic::AtomicI32 = std::sync::atomic::AtomicI32::new(0);
+static COV_FAILS: std::sync::Mutex<Vec<String>> = std::sync::Mutex::new(Vec::new());
+static COV_CHECKED: std::sync::atomic::AtomicUsize = std::sync::atomic::AtomicUsize::new(0);
+
+/// the fit, plus (for power-of-two scaled datasets) the same fit on the base instance: scaling by a power of two is
+/// exact in binary floating point as long as nothing over- or underflows, and k-means has no absolute constant besides
+/// the user's tolerance (scaled along), so centroids must scale by 2^e, distances by 2^e (L1, Linf) or 2^2e (L2 reduced
+/// distance, inertia), and predictions / counts must be identical - bit for bit
+fn do_fit<F: Fl>(m: Met, x: &Array2<F>, q: &Array2<F>, k: usize, init: &Init<F>, seed: u64, max_iter: u64, tol: F, n_runs: usize) -> Result<FitOut<F>, String> {
+    let res = do_fit_raw(m, x, q, k, init, seed, max_iter, tol, n_runs)?;
+    let e = COV_EXP.load(std::sync::atomic::Ordering::Relaxed);
+    // k-means|| in the multi-thread pool is not a function of its input (task split by work stealing): no twin
+    if e != 0 && !matches!(init, Init::Para) {
+        let s = F::of64(2f64.powi(e));
+        let xb = x.mapv(|v| v / s);
+        let qb = q.mapv(|v| v / s);
+        let ib = match init { Init::Pre(c) => Init::Pre(c.iter().map(|r| r.iter().map(|v| *v / s).collect()).collect()), o => o.clone() };
+        let base = do_fit_raw(m, &xb, &qb, k, &ib, seed, max_iter, tol / s, n_runs)?;
+        COV_CHECKED.fetch_add(1, std::sync::atomic::Ordering::Relaxed);
+        let sd = if m == Met::L2 { s * s } else { s };
+        let mut bad: Option<String> = None;
+        if !base.centroids.iter().flatten().map(|v| (*v * s).bits()).eq(res.centroids.iter().flatten().map(|v| v.bits())) {
+            bad = Some(format!("centroids {:?} at scale 2^{} are not 2^{} x {:?}", res.centroids, e, e, base.centroids));
+        } else if base.predict != res.predict || base.predict1 != res.predict1 {
+            bad = Some(format!("predict {:?} / {:?} at scale 2^{} differs from {:?} / {:?} at scale 1", res.predict, res.predict1, e, base.predict, base.predict1));
+        } else if !base.counts.iter().map(|v| v.bits()).eq(res.counts.iter().map(|v| v.bits())) {
+            bad = Some(format!("cluster_count {:?} at scale 2^{} differs from {:?} at scale 1", res.counts, e, base.counts));
+        } else if !base.transform.iter().map(|v| (*v * sd).bits()).eq(res.transform.iter().map(|v| v.bits())) {
+            bad = Some(format!("transform {:?} at scale 2^{} is not the scaled {:?}", res.transform, e, base.transform));
+        } else if (base.inertia * sd).bits() != res.inertia.bits() {
+            bad = Some(format!("inertia {:?} at scale 2^{} is not the scaled {:?}", res.inertia, e, base.inertia));
+        }
+        if let Some(b) = bad {
+            COV_FAILS.lock().unwrap().push(format!("max_n_iterations={} n_runs={}: {}", max_iter, n_runs, b));
+        }
+    }
+    Ok(res)
 }
 
 fn gen_data(rng: &mut Sm64, n: usize, d: usize, kind: u64) -> Vec<Vec<f64>> {
@@ -237,6 +358,12 @@ fn one_dataset<F: Fl>(id: u64, r: &mut Sm64, lim: &Limits, out: &mut Out) {
     // expose absolute-epsilon shortcuts, large ones lossy accumulations
     let scale = *r.pick(lim.scales);
     let subnormal = scale < 1e-19;
+    // power-of-two families: the exact covariance twin runs unless the reduced distances could underflow (f32 at 2^-40)
+    let pow2: i32 = if scale != 1.0 && scale.log2().fract() == 0.0 && scale.log2().abs() <= 64.0 { scale.log2() as i32 } else { 0 };
+    let cov = pow2 != 0 && !(F::NAME == "f32" && pow2 <= -40);
+    COV_EXP.store(if cov { pow2 } else { 0 }, std::sync::atomic::Ordering::Relaxed);
+    let layout = (id % 8) as u8;
+    LAYOUT.store(layout, std::sync::atomic::Ordering::Relaxed);
     let x: Vec<Vec<F>> = gen_data(r, n, d, kind).into_iter().map(|row| row.into_iter().map(|v| F::of64(v * scale)).collect()).collect();
     let m = *r.pick(&mets);
     let xa = arr(&x);
@@ -259,10 +386,16 @@ fn one_dataset<F: Fl>(id: u64, r: &mut Sm64, lim: &Limits, out: &mut Out) {
     let mname = format!("{:?}", m);
     let seed = r.below(1000);
     let mut fits: Vec<String> = Vec::new();
-    let mut tags: Vec<String> = vec![format!("metric_{}", mname), format!("kind_{}", kind), format!("scale_{:e}", scale), F::NAME.to_string()];
+    let scale_name = if pow2 != 0 { format!("2^{}", pow2) } else { format!("{:e}", scale) };
+    let mut tags: Vec<String> = vec![format!("metric_{}", mname), format!("kind_{}", kind), format!("scale_{}", scale_name), F::NAME.to_string(),
+        format!("layout_{}", LAYOUTS[layout as usize])];
+    if cov { tags.push("pow2_covariance_twin".into()); }
+    out.bump(&format!("layout_{}", LAYOUTS[layout as usize]));
+    out.bump(&format!("{}_layout_{}", F::NAME, LAYOUTS[layout as usize]));
     if subnormal { tags.push("subnormal_sq_dists".into()); }
-    out.bump(&format!("{}_scale_{:e}", F::NAME, scale));
-    let single = id % 2 == 1;
+    out.bump(&format!("{}_scale_{}", F::NAME, scale_name));
+    out.bump(&format!("scale_{}", scale_name));
+    let single = (id / 8) % 2 == 1;
     SINGLE_POOL.store(single, std::sync::atomic::Ordering::Relaxed);
     out.bump(if single || stream == 7 { "pool_one_thread" } else { "pool_default" });
     let mut series = 0;
@@ -413,8 +546,8 @@ fn one_dataset<F: Fl>(id: u64, r: &mut Sm64, lim: &Limits, out: &mut Out) {
     }
     let x0: Vec<f64> = x[0].iter().map(|v| v.to64()).collect();
     let desc = format!(
-        "{{\"float\": {}, \"n\": {}, \"d\": {}, \"k\": {}, \"metric\": {}, \"kind\": {}, \"stream\": {}, \"seed\": {}, \"tol\": {:e}, \"scale\": {:e}, \"fits\": {}, \"max_n_iterations_n_runs\": {:?}, \"X_first_row\": {:?}, \"X\": {:?}, \"initial_centroids_per_restart\": {}}}",
-        jstr(F::NAME), n, d, k, jstr(&mname), kind, stream, seed, tol.to64(), scale, fits.len(),
+        "{{\"float\": {}, \"n\": {}, \"d\": {}, \"k\": {}, \"metric\": {}, \"kind\": {}, \"stream\": {}, \"seed\": {}, \"tol\": {:e}, \"scale\": {:e}, \"layout\": {}, \"fits\": {}, \"max_n_iterations_n_runs\": {:?}, \"X_first_row\": {:?}, \"X\": {:?}, \"initial_centroids_per_restart\": {}}}",
+        jstr(F::NAME), n, d, k, jstr(&mname), kind, stream, seed, tol.to64(), scale, jstr(LAYOUTS[layout as usize]), fits.len(),
         configs.iter().map(|c| vec![c.0, c.1 as u64]).collect::<Vec<_>>(), x0,
         x.iter().map(|row| row.iter().map(|v| v.to64()).collect::<Vec<f64>>()).collect::<Vec<_>>(),
         match &init_desc { Some(i) => format!("{:?}", i), None => "null".to_string() }
@@ -426,6 +559,10 @@ fn one_dataset<F: Fl>(id: u64, r: &mut Sm64, lim: &Limits, out: &mut Out) {
     out.bump(&format!("k_{}", k));
     out.bump(&format!("n_{}", if n < 10 { "lt10" } else if n < 30 { "10to29" } else { "ge30" }));
     let tagrefs: Vec<&str> = tags.iter().map(|s| s.as_str()).collect();
+    for what in COV_FAILS.lock().unwrap().drain(..).take(2) {
+        rust_fails.push((32768, format!("power-of-two scale covariance broken: {}", what)));
+    }
+    COV_FAILS.lock().unwrap().clear();
     for (code, what) in &rust_fails {
         out.rust_fail(id, *code, &tagrefs, what, &desc);
     }
@@ -448,6 +585,11 @@ fn one_dataset<F: Fl>(id: u64, r: &mut Sm64, lim: &Limits, out: &mut Out) {
     }
 }
 
+const P2M40: f64 = 9.094947017729282e-13;
+const P2M20: f64 = 9.5367431640625e-7;
+const P2P20: f64 = 1048576.0;
+const P2P40: f64 = 1099511627776.0;
+
 fn main() {
     let args = parse_args();
     let mut rng = Sm64::new(args.seed);
@@ -458,12 +600,12 @@ fn main() {
     let mut out = Out::new(&args.out, shards, "C09.Corr", "case", args.only);
     let lim64 = Limits {
         maxn: if thorough { 60 } else { 28 }, maxk: 5, maxd: 4, maxbudget: if thorough { 8 } else { 5 },
-        maxruns: if thorough { 5 } else { 3 }, nquery: 4, scales: &[1.0, 1.0, 1.0, 1e-9, 3e-8, 1e-4, 1e7, 1e-158],
+        maxruns: if thorough { 5 } else { 3 }, nquery: 4, scales: &[1.0, 1.0, 1.0, 1e-9, 3e-8, 1e-4, 1e7, 1e-158, P2M40, P2M20, P2P20, P2P40],
     };
     // the binary32 model runs on SpecFloat (about 60 us per operation under vm_compute): small instances only
     let lim32 = Limits {
         maxn: if thorough { 28 } else { 16 }, maxk: 4, maxd: 4, maxbudget: if thorough { 6 } else { 4 },
-        maxruns: if thorough { 3 } else { 2 }, nquery: 4, scales: &[1.0, 1.0, 1e-4, 3e-3, 1e3, 1e-20, 1e-9, 1e7],
+        maxruns: if thorough { 3 } else { 2 }, nquery: 4, scales: &[1.0, 1.0, 1e-4, 3e-3, 1e3, 1e-20, 1e-9, 1e7, P2M40, P2M20, P2P20, P2P40],
     };
     for id in 0..ndatasets as u64 {
         let mut r = rng.fork();
@@ -475,7 +617,10 @@ fn main() {
             break;
         }
     }
-    out.finish("datasets drawn from 5 families (separated blobs, overlapping clouds, integer lattice with duplicates, fewer distinct points than clusters, large offset) x float type (f64, every third f32) x metric x stream (precomputed initial centroids from the data / arbitrary with growing budget, random and k-means++ with growing n_runs, k-means|| in the default pool (oracle only), precomputed x n_runs >= 2 x growing budget, random x n_runs >= 2 x growing budget, k-means|| replayed in a one-thread pool with growing n_runs); every fit also answers predict (matrix, single rows and four further call forms) and transform (three layouts) on a query set; a case is non-trivial when k > 1 and the data has > 1 distinct point; distinct = distinct (data, k, stream, float type) hashes");
+    out.bump_by("pow2_covariance_twin_fits", COV_CHECKED.load(std::sync::atomic::Ordering::Relaxed) as u64);
+    out.bump_by("owned_arrays_with_negative_strides", NEG_OWNED.load(std::sync::atomic::Ordering::Relaxed) as u64);
+    out.finish("datasets drawn from 5 families (separated blobs, overlapping clouds, integer lattice with duplicates, fewer distinct points than clusters, large offset) x float type (f64, every third f32) x metric x stream (precomputed initial centroids from the data / arbitrary with growing budget, random and k-means++ with growing n_runs, k-means|| in the default pool (oracle only), precomputed x n_runs >= 2 x growing budget, random x n_runs >= 2 x growing budget, k-means|| replayed in a one-thread pool with growing n_runs); every dataset presents records, query batch and precomputed centroids in one of 8 memory layouts (row-major, column-major, reversed rows / columns as views and as owned arrays with negative strides, step-2 slices of a longer / wider array; rotating with the dataset id) and at one of 16 (f64) / 12 (f32) magnitudes incl. 2^-40, 2^-20, 2^20, 2^40 (with the exact power-of-two covariance twin); every fit also answers predict (matrix, single rows and four further call forms) and transform (three layouts) on a query set; a case is non-trivial when k > 1 and the data has > 1 distinct point; distinct = distinct (data, k, stream, float type) hashes");
+    // (finish consumed `out`; the sanity counters were bumped before)
     // abandoned fit threads (if any) must not keep the process alive
     std::process::exit(0);
 }
